@@ -174,3 +174,6 @@ func Yield(tag string) { runtime.Gosched() }
 // Quiesce: wait until the other goroutines of the scenario have stopped making progress.
 func Quiesce() { time.Sleep(150 * time.Millisecond) }
 func Threads() {}
+
+// SetClock pins the engine's clock stub; natively the real clock runs.
+func SetClock(sec, nsec, stepNs int64) {}
